@@ -49,6 +49,8 @@ pub enum Action {
     /// async log fetch: arm LogTemporarilyUnavailable at node / complete the fetch
     ArmFetch(u8),
     Fetched(u8),
+    /// the next Storage::snapshot() call at this node answers SnapshotTemporarilyUnavailable
+    ArmSnapBusy(u8),
     /// prefix-only: run the cluster FIFO to quiescence (no ticks)
     Settle,
     /// prefix-only: process every pending Ready (and persistence) of one node
@@ -89,7 +91,7 @@ macro_rules! counts {
 }
 counts!(
     timeouts, ticks, beats, drops, dups, reorders, props, ccs, reads, transfers, campaigns,
-    crashes, cuts, compacts, setcaps, unreach, reqsnaps, snapfail, fetches, lazy
+    crashes, cuts, compacts, setcaps, unreach, reqsnaps, snapfail, fetches, lazy, snapbusy
 );
 
 #[derive(Clone, Debug)]
